@@ -263,6 +263,8 @@ def run(tier, seed):
         for ti in range(ntargets):
             a = AG.gen_ag(rng, n_nts=(1, 3), max_rules=2, max_nodes=3, max_edges=3, recursion='none', weights='primes',
                           p_inf=0.04 if ti % 3 == 0 else 0.0, dom_sizes=(2, 3) if ti % 2 else (1, 2, 3))
+            if ti % 7 == 5:
+                a = AG.gen_factor_at_two_levels(rng)      # one factor inside a nonterminal and again next to it
             if ti % 3 == 1 and a['rules']:
                 # a production written down twice counts twice
                 k = rng.randrange(len(a['rules']))
